@@ -55,7 +55,10 @@ TAL_BASIC = [K("k3::S-Define"), K("k3::S-Define-clauses"), K("k3::S-Define-tuple
              K("k3::S-OmitTag-empty"), K("k3::S-OmitTag-selfclosing"),
              K("k3::S-Attribute"), K("k3::S-Attribute-quotes"), K("k3::S-Attribute-dict"), K("k3::S-Attribute-dict-first"), K("k3::S-Literal"), K("k3::S-Combined"), K("k3::S-Repeat")]
 
-S_TALES = [K("k3::S-Pipe3"), K("k3::S-Not"), K("k3::S-Exists"), K("k3::S-LambdaScope")]
+RESERVED = [K("k3::S-Repeat-reserved"), K("k3::S-Define-reserved"), K("k3::S-Define-econtext"),
+            K("k3::S-Define-tuple-reserved"), K("k3::S-Define-tuple-reserved-first"),
+            K("k3::S-Repeat-tuple-reserved")]
+S_TALES = [K("k3::S-Pipe3"), K("k3::S-Same-not-twice"), K("k3::S-Same-exists-twice"), K("k3::S-Same-string-twice"), K("k3::S-Not"), K("k3::S-Exists"), K("k3::S-LambdaScope")]
 S_INTERP = [K("k3::S-Interp-text"), K("k3::S-Interp-off"), K("k3::S-Interp-lines"),
             K("k3::S-Interp-percent"), K("k3::S-Cdata-then-text")]
 S_I18N = [K("k3::S-Translate-name"), K("k3::S-Translate-name-condition"), K("k3::S-Translate-id"), K("k3::S-Translate-empty"),
@@ -103,7 +106,7 @@ PROPS = {
         "outer binding (or undefinedness) on normal exit, globals are proved to persist in scope and "
         "in the render-wide context, and macro calls receive a copy of the scope and merge globals back.",
         [K("k3::S-Define"), K("k3::S-Define-clauses"), K("k3::S-Define-tuple"), K("k3::S-Repeat"), K("k3::S-UseExternal"), K("k3::S-MacroUseInternal"),
-         K("k3::S-Repeat-reserved"), K("k3::S-Define-reserved"), K("k3::S-Define-econtext"),
+         ] + RESERVED + [
          K("k3::S-OnError-Define"), K("k3::S-GlobalInLocal"), K("k3::S-LambdaScope"), FRESH] +
         [K("utils.py::Scope." + m) for m in ("get", "__getitem__", "__contains__", "get_name", "set_global", "copy")],
         ["utils.Scope.__iter__ / keys / items (generators over two dict layers)",
@@ -377,7 +380,7 @@ PROPS = {
         "level_note": "Trusted: the axiom schemas for str/re builtins (conformance-tested each run), "
                       "CPython's re engine, the encoding of Python semantics in DESIGN.md 2.3. "
                       "Not decided: 'valid templates are never rejected'; message formatting.",
-        "units": TOKEN + [K("k3::S-Strict-rejects"), K("k3::S-Deferred-twice"), K("parser.py::match_tag"),
+        "units": TOKEN + RESERVED + [K("k3::S-Strict-rejects"), K("k3::S-Deferred-twice"), K("parser.py::match_tag"),
                           U('pyvc.frames', 'cook_error_frame', '_cook.error_frame'),
                           U('pyvc.regexlang', 'statement_unit', 'tal.statement_patterns'),
                           U('bounded.units', 'reject', 'B-REJECT'),
